@@ -45,13 +45,16 @@ RECURSIVE CoreSeqs(_)
 CoreSeqs(n) == IF n = 0 THEN {<<>>} ELSE {<<e>> \o s : e \in CoreEvents, s \in CoreSeqs(n - 1)}
 
 Flat(evs, from) == Concat([i \in 1 .. Len(evs) |-> EvStmts(evs[i], from + i)])
-Wrappers == {"block", "call", "for", "if", "while"}
+Wrappers == {"block", "call", "for", "if", "while", "whilecont", "forcont"}
 W == <<119>>
 Wrap(w, body) ==
     CASE w = "block" -> <<SBlock(body \o <<SPrint(EInt(0))>>)>>
       [] w = "call"  -> <<SFn(W, <<>>, FALSE, body), SExpr(ECall(EVar(W), <<>>))>>
       [] w = "for"   -> <<SFor(EVar(N_us), EList(<<EInt(1), EInt(2)>>), body)>>
       [] w = "if"    -> <<SIf(EBool(TRUE), body)>>
+      [] w = "whilecont" -> <<SDecl(EVar(W), EInt(0)),
+                              SWhile(EBin("<", EVar(W), EInt(2)), <<SOpAssign(EVar(W), "+", EInt(1))>> \o body \o <<SContinue>>)>>
+      [] w = "forcont" -> <<SFor(EVar(N_us), EList(<<EInt(1), EInt(2)>>), body \o <<SContinue>>)>>
       [] w = "while" -> <<SDecl(EVar(W), EInt(0)),
                           SWhile(EBin("<", EVar(W), EInt(2)), <<SOpAssign(EVar(W), "+", EInt(1))>> \o body)>>
 
